@@ -35,6 +35,31 @@ class C12(OutstationProp):
                 seq = (seq + 1) & 15
             sid = "c12_f_%d" % i
             out.append(Case(sid, script_text(sid, "outstation", cfg, ops), {"kind": "functions", "cfg": cfg}))
+        # control echoes that outgrow the transmit buffer at every alignment: several headers, the first one
+        # filling the buffer up to a few bytes
+        for i in range(40 if tier == "quick" else 1500):
+            soltx = rng.choice([249, 249, 260, 300])
+            cfg = {"unsol": 0, "soltx": soltx, "confirm_ms": 1000, "sel": 0, "op": 0, "decode": rng.below(4)}
+            wide = rng.chance(1, 3)
+            g, v, osz = rng.choice([(12, 1, 11), (41, 1, 5), (41, 2, 3), (41, 3, 5), (41, 4, 9)])
+            isz = 2 if wide else 1
+            hsz = 3 + isz
+            room = soltx - 4
+            kfull = max(1, (room - hsz) // (isz + osz))
+            k1 = max(1, min(kfull + rng.range(-3, 2), 255 if not wide else 600))
+            def hdr(n, gg, vv, oo):
+                items = []
+                for j in range(n):
+                    obj = g12v1(code=3, count=1, on=j, off=j) if gg == 12 else g41(vv, j)
+                    items.append((j, obj))
+                return control_header(gg, vv, items, wide)
+            g2, v2, osz2 = rng.choice([(12, 1, 11), (41, 1, 5), (41, 2, 3), (41, 3, 5), (41, 4, 9)])
+            objs = hdr(k1, g, v, osz) + hdr(rng.range(1, 4), g2, v2, osz2) + (hdr(rng.range(1, 3), g, v, osz) if rng.chance(1, 3) else b"")
+            seq = rng.below(16)
+            fn = rng.choice([FN["direct"], FN["select"], FN["operate"], FN["direct"]])
+            ops = [("rx", MASTER, "none", hexs(frag(seq, fn, objs)))]
+            sid = "c12_e_%d" % i
+            out.append(Case(sid, script_text(sid, "outstation", cfg, ops), {"kind": "echo-sweep", "cfg": cfg}))
         # multi-fragment responses: every fragment must fit and parse, wherever the buffer runs out
         for i in range(20 if tier == "quick" else 400):
             cfg = {"unsol": 0, "soltx": rng.choice([249, 250, 251, 252, 253, 300]), "confirm_ms": 1000, "sel": 0, "op": 0, "decode": rng.below(4)}
